@@ -74,6 +74,8 @@ fn parse_file_body(k: usize) {
 
 // ---------------------------------------------------------------- decoded parts -> typed values (Multipart::next + DeserializeFilesOrField)
 use serde::de::{SeqAccess, Deserializer as _, IntoDeserializer as _};
+/// error texts are not under contract: formatting them (core::fmt::write, `{:?}` of str with its unicode tables) dominated these queries (measured)
+fn stub_fmt_write(_: &mut dyn std::fmt::Write, _: std::fmt::Arguments<'_>) -> std::fmt::Result { Ok(()) }
 fn one(b: &'static [u8; 4], i: usize) -> &'static [u8] { &b[i..i + 1] }
 fn ascii(b: &'static [u8; 4], i: usize) -> &'static str { unsafe { std::str::from_utf8_unchecked(&b[i..i + 1]) } }
 fn parts_of(n: usize, names: &'static [u8; 4], contents: &'static [u8; 4]) -> Multipart<'static> {
@@ -108,7 +110,7 @@ fn files_in_order_body(k: usize) {
     assert!(m.next().is_none(), "multipart: nothing else");
     kani::cover!(true);
 }
-//@chunks 4 c10_files_in_order files_in_order_body #[kani::proof] #[kani::unwind(12)] #[kani::stub(std::str::from_utf8, stub_from_utf8)]
+//@chunks 4 c10_files_in_order files_in_order_body #[kani::proof] #[kani::unwind(12)] #[kani::stub(std::str::from_utf8, stub_from_utf8)] #[kani::stub(core::fmt::write, stub_fmt_write)]
 
 /// shape fit: Option<File> is None for an empty file input, Some(the file) for exactly one, an error for several; a single File is an error for several;
 /// a text field is never a file and a file never a text
@@ -140,7 +142,7 @@ fn shape_fit_body(n: usize) {
     assert!(as_file.is_err(), "multipart: a text field does not fit a file target");
     kani::cover!(true);
 }
-//@chunks 3 c10_shape_fit shape_fit_body #[kani::proof] #[kani::unwind(12)] #[kani::stub(std::str::from_utf8, stub_from_utf8)]
+//@chunks 3 c10_shape_fit shape_fit_body #[kani::proof] #[kani::unwind(12)] #[kani::stub(std::str::from_utf8, stub_from_utf8)] #[kani::stub(core::fmt::write, stub_fmt_write)]
 
 /// the parser keeps submission order: a concrete conforming body with a text field and three files under one name (a symbolic execution of
 /// the real parser on ONE input: the order of `parts` and grouping by next())
